@@ -189,9 +189,19 @@ func (t DurationValue) String() string {
 
 // ------------------------------------------------------------------ validators / plan modifiers
 
-type Validator struct{ ID int }
+type Validator struct {
+	ID  int
+	Arg string // VS / VF: the call as written in the configuration, e.g. VS("a.b")
+}
 
 func V(id int) tfsdk.AttributeValidator { return Validator{ID: id} }
+
+// VS and VF take arguments that contain dots, quotes and slashes (as in hostvalidator.Suffix("example.com") or
+// float64validator.AtLeast(0.5)): a qualified expression must be split at the qualifier, not at the last dot.
+func VS(s string) tfsdk.AttributeValidator { return Validator{ID: -1, Arg: fmt.Sprintf("VS(%q)", s)} }
+func VF(f float64) tfsdk.AttributeValidator {
+	return Validator{ID: -2, Arg: "VF(" + strconv.FormatFloat(f, 'g', -1, 64) + ")"}
+}
 
 func (v Validator) Description(context.Context) string { return fmt.Sprintf("support.V(%d)", v.ID) }
 func (v Validator) MarkdownDescription(context.Context) string {
@@ -200,9 +210,15 @@ func (v Validator) MarkdownDescription(context.Context) string {
 func (v Validator) Validate(context.Context, tfsdk.ValidateAttributeRequest, *tfsdk.ValidateAttributeResponse) {
 }
 
-type PlanModifier struct{ ID int }
+type PlanModifier struct {
+	ID  int
+	Arg string
+}
 
 func PM(id int) tfsdk.AttributePlanModifier { return PlanModifier{ID: id} }
+func PMS(s string) tfsdk.AttributePlanModifier {
+	return PlanModifier{ID: -1, Arg: fmt.Sprintf("PMS(%q)", s)}
+}
 
 func (v PlanModifier) Description(context.Context) string { return fmt.Sprintf("support.PM(%d)", v.ID) }
 func (v PlanModifier) MarkdownDescription(context.Context) string {
